@@ -33,16 +33,16 @@ type Solver struct {
 	defAt  map[int32]int
 	declAt map[string]int
 
-	Queries   int
-	SatCount  int
-	Unsats    int
-	Unknowns  int
-	Errors    int
-	Time      time.Duration
-	log       io.Writer
-	timeoutMs int
-	bin       string
-	logic     string
+	Queries     int
+	SatCount    int
+	Unsats      int
+	Unknowns    int
+	Errors      int
+	Time        time.Duration
+	log         io.Writer
+	timeoutMs   int
+	bin         string
+	logic       string
 	debugBodies map[int32]string
 	lines       [][]string // declarations, definitions and assertions per level (for the one-shot fallback)
 	pending     string     // get-value answer of a one-shot fallback run, consumed by GetModel
